@@ -57,7 +57,7 @@ def edge_iff_guard(run, f, det):
     for l, ds in tr.defs.items():
         t = tr.norm(tr.local(l))
         ty = f.ty(b.locals[l]["ty"])
-        if b.locals[l].get("name") and any(x.is_adt("WaitForGuard") for x in ty.walk()):
+        if b.locals[l].get("name") and any(x.k == "adt" and x.defn == __import__("anchors").names(f).guard for x in ty.walk()):
             from sendpaths import subterms
             if any(x == E for x in subterms(t)):
                 holders.append(l)
@@ -83,7 +83,7 @@ def guard_lives_across_awaits(run, f, det):
             for i in vs[0]["fields"]:
                 s = b.layout["saved"][i]
                 names.append(s["name"])
-                if any(x.is_adt("WaitForGuard") for x in f.ty(s["ty"]).walk()):
+                if any(x.k == "adt" and x.defn == __import__("anchors").names(f).guard for x in f.ty(s["ty"]).walk()):
                     held = True
         run.require(held, "O15.2", "guard-stored-at-suspension:%s" % _await_key(b, y),
                     "while the ask is suspended at %s the future does not own the WaitForGuard (saved: %s): the edge would be removed too early or never" % (loc_of(b, y), names),
